@@ -153,6 +153,9 @@ func (b *Built) Run(cmds []Cmd) ([]Res, string) {
 	}
 	defer os.Remove(name)
 	r := b.run(name)
+	if r.TimedOut {
+		panic("harness: driver timed out (machine overloaded?)")
+	}
 	out := make([]Res, len(cmds))
 	seen := make([]bool, len(cmds))
 	for _, line := range strings.Split(string(r.Stdout), "\n") {
@@ -289,6 +292,9 @@ func BuildPython(p *dsl.Program, files map[string][]byte, dir string) (*Built, *
 	env := []string{"PYTHONPATH=" + out + ":" + filepath.Join(RT(), "python"), "PYTHONDONTWRITEBYTECODE=1"}
 	// import the module (and its test module): syntax errors and bad top-level code show here
 	r := cli.Run(dir, buildTimeout, nil, env, "python3", "-c", "import importlib,sys; importlib.import_module(sys.argv[1]); importlib.import_module(sys.argv[1]+'_test')", mod)
+	if r.TimedOut {
+		panic("harness: toolchain timed out (machine overloaded?)")
+	}
 	if r.Exit != 0 {
 		return nil, &BuildError{"python", "emitted", string(r.Stderr) + string(r.Stdout)}
 	}
